@@ -24,7 +24,7 @@ pub fn property() -> Property {
             "tokio paused clock and current-thread scheduler; the harness pipe",
             "server session wired as handle_connection wires it (callback channel, recv_loop, process_stream_data)",
         ],
-        families: vec![(Box::new(PipeFam), 3_000, 60_000), (Box::new(crate::props::e2e::TunnelFam), 40, 1_500)],
+        families: vec![(Box::new(PipeFam), 3_000, 60_000), (Box::new(crate::props::e2e::TunnelFam), 120, 1_500)],
     }
 }
 
@@ -86,6 +86,10 @@ pub struct PipeCase {
     /// (everything they will ever get is queued by then)
     #[serde(default)]
     pub late_readers: bool,
+    /// (down direction?, after this many transport bytes, seconds): the transport delivers nothing
+    /// for a while and then recovers; with a small capacity every writer sits in its write meanwhile
+    #[serde(default)]
+    pub stall: Option<(bool, u16, u8)>,
 }
 
 pub struct PipeFam;
@@ -260,8 +264,14 @@ async fn read_dir_inner(st: Arc<Stream>, plan: DirPlan, key: u32, dir: u8, prog:
 pub fn run_pipe_case(case: &PipeCase) -> CaseResult {
     let mut out = Outcome::new();
     let total: usize = case.streams.iter().map(|s| s.up.chunks.iter().sum::<usize>() + s.down.chunks.iter().sum::<usize>()).sum();
-    let c2s = bound_work(&case.c2s, total);
-    let s2c = bound_work(&case.s2c, total);
+    let mut c2s = bound_work(&case.c2s, total);
+    let mut s2c = bound_work(&case.s2c, total);
+    let stall = case.stall;
+    if let Some((down, _, _)) = stall {
+        // a stall only bites when the writers cannot get rid of their bytes
+        let p = if down { &mut s2c } else { &mut c2s };
+        p.capacity = p.capacity.min(1024);
+    }
     let text = case.scheme.text();
     let mut plans = case.streams.clone();
     let end_by_close = case.end_by_close;
@@ -281,6 +291,9 @@ pub fn run_pipe_case(case: &PipeCase) -> CaseResult {
         install_draw(seed);
         let sched = install_schedule(yields);
         let mut l = link(c2s, s2c);
+        if let Some((down, at, secs)) = stall {
+            (if down { &l.s2c } else { &l.c2s }).stall_reader_at(at as usize, secs as u64 * 1000);
+        }
         let pad = padding(&text);
         let client = client_session(&mut l, pad.clone(), None);
         let (server, mut rx, _tasks) = server_session(&mut l, pad);
@@ -359,8 +372,10 @@ pub fn run_pipe_case(case: &PipeCase) -> CaseResult {
                     }
                 }
                 let mut last = c2s_h.accepted();
+                // (a stalled transport is quiet too: outlast the stall)
+                let quiet = 2 + stall.map(|s| s.2 as u64).unwrap_or(0);
                 loop {
-                    tokio::time::sleep(Duration::from_secs(2)).await;
+                    tokio::time::sleep(Duration::from_secs(quiet)).await;
                     let now = c2s_h.accepted();
                     if now == last {
                         break;
@@ -462,6 +477,7 @@ pub fn run_pipe_case(case: &PipeCase) -> CaseResult {
     out.class_if(frames.iter().any(|f| f.cmd == rc::WASTE), "padding-on-wire");
     out.class_if(used != raw.len(), "wire-tail");
     out.class_if(case.end_by_close, "ended-by-session-close");
+    out.class_if(case.stall.is_some_and(|s| s.2 >= 6), "transport-stalled>=6s");
     out.class_if(case.end_by_close && case.late_readers, "late-readers");
     out.nt((big || (tiny && total > 0) || n_streams >= 2 || small_buf) && total > 0);
     Ok(out)
@@ -488,8 +504,9 @@ impl Family for PipeFam {
             any::<u64>(),
             proptest::bool::weighted(0.25),
             any::<bool>(),
+            proptest::option::weighted(0.2, (any::<bool>(), prop_oneof![Just(0u16), 1u16..2000, any::<u16>()], prop_oneof![Just(1u8), Just(4), Just(6), Just(11), Just(31), Just(61)])),
         )
-            .prop_map(|(scheme, streams, c2s, s2c, yields, draw_seed, end_by_close, late_readers)| PipeCase { scheme, streams, c2s, s2c, yields, draw_seed, end_by_close, late_readers })
+            .prop_map(|(scheme, streams, c2s, s2c, yields, draw_seed, end_by_close, late_readers, stall)| PipeCase { scheme, streams, c2s, s2c, yields, draw_seed, end_by_close, late_readers, stall })
             .boxed()
     }
     fn fixed_cases(&self, _tier: Tier) -> Vec<PipeCase> {
@@ -506,6 +523,7 @@ impl Family for PipeFam {
                     draw_seed: n as u64,
                     end_by_close: false,
                     late_readers: false,
+                    stall: if n == 70000 { Some((api == WriteApi::Send, 3000, 11)) } else { None },
                 });
             }
         }
